@@ -126,6 +126,7 @@ func run(c *runner.Ctx) {
 	wideStructs(c)
 	repeatedSetRule(c)
 	untaggedNested(c)
+	embeddedAndUnknown(c)
 	lateNames(c)
 	samePrintingTypes(c)
 	vals := valueMenu()
@@ -570,6 +571,79 @@ func untaggedNested(c *runner.Ctx) {
 					}
 					if actual != exp.Error() {
 						c.Violation("untagged-nested/"+classify(exp.Fields, errparse.Split(actual)), det)
+					} else {
+						c.Outcome(fmt.Sprintf("clauses=%d", len(exp.Fields)))
+					}
+				}
+			}
+		}
+	}
+}
+
+// Embedded structs are objects of their own: a rule set given for the enclosing struct (targeted or not) does not
+// reach the embedded one, even where field names coincide; and an unknown rule name is reported for every field that
+// carries it, however often its type occurs in the graph.
+type EBase struct {
+	ID   string `valid:"required|b-id"`
+	Memo string `valid:"zz9,le=3|b-memo"`
+}
+
+type EOuter struct {
+	ID    string `valid:"to=1~3|o-id"`
+	EBase `valid:"exist"`
+	P     *EBase  `valid:"exist"`
+	L     []EBase `valid:"exist"`
+}
+
+func embeddedAndUnknown(c *runner.Ctx) {
+	c.Space(c.Mode + ":embedded-struct-and-unknown-names")
+	sets := []struct {
+		name            string
+		typed, unscoped map[string]string
+	}{{"none", nil, nil}, {"unscoped{ID}", nil, map[string]string{"ID": "eq=5|u-id"}}, {"typed-outer{ID}", map[string]string{"ID": "eq=4|t-id"}, nil},
+		{"unscoped{ID,Memo}", nil, map[string]string{"ID": "required|u-id2", "Memo": "eq=2|u-memo"}}}
+	ids := []string{"", "abcd", "abcde", "ab"}
+	for _, st := range sets {
+		for a := range ids {
+			for b := range ids {
+				for how := 0; how < 2; how++ {
+					if !c.Take() {
+						continue
+					}
+					o := &EOuter{ID: ids[a], EBase: EBase{ID: ids[b], Memo: "toolong"}, P: &EBase{ID: ids[(a+b)%4], Memo: "m"}, L: []EBase{{ID: "x", Memo: "toolong"}, {ID: "", Memo: "ok"}}}
+					opts := walk.Opts{Typed: map[reflect.Type]map[string]string{}}
+					vs := valid.NewVStruct()
+					if st.typed != nil {
+						opts.Typed[reflect.TypeOf(EOuter{})] = st.typed
+						vs.SetRule(toRM(st.typed), &EOuter{})
+					}
+					if st.unscoped != nil {
+						opts.Unscoped = st.unscoped
+						vs.SetRule(toRM(st.unscoped))
+					}
+					var src interface{} = o
+					if how == 1 {
+						if st.unscoped != nil {
+							continue
+						}
+						src = []*EOuter{o, o}
+					}
+					exp := walk.Struct(src, opts)
+					var err error
+					pan, msg, site := runner.Guard(func() { err = vs.Valid(src) })
+					c.Done(true, 1)
+					actual := ""
+					if err != nil {
+						actual = err.Error()
+					}
+					det := map[string]interface{}{"sets": st.name, "outer_id": ids[a], "embedded_id": ids[b], "top": []string{"*EOuter", "[]*EOuter"}[how], "expected": exp.Error(), "actual": actual}
+					if pan {
+						det["panic"] = msg
+						c.Violation("panic@"+site, det)
+						continue
+					}
+					if actual != exp.Error() {
+						c.Violation("embedded/"+classify(exp.Fields, errparse.Split(actual)), det)
 					} else {
 						c.Outcome(fmt.Sprintf("clauses=%d", len(exp.Fields)))
 					}
